@@ -1,7 +1,9 @@
 (* Model of authboss.ClientStateResponseWriter (client_state.go:111-275, 348-387).
    A handler program is a list of operations on the response writer; the model
    returns the trace of calls that reach the two client-state stores and the
-   underlying http.ResponseWriter, in order. *)
+   underlying http.ResponseWriter, in order — including the stores' failure path: a
+   program can make the next WriteState call of a store return an error, and the trace
+   shows what the handler gets back (TErr / TPanic) instead of the release. *)
 From AB Require Export Base.Bytes.
 
 Inductive csevent :=
@@ -18,24 +20,58 @@ Inductive op :=
 | OEv (s : store) (e : csevent) (depth : nat)   (* setState: client_state.go:360 *)
 | OWriteHeader (code : Z) (depth : nat)          (* client_state.go:206 *)
 | OWrite (body : bytes) (depth : nat)            (* client_state.go:232 *)
-| OGet (s : store) (k : bytes).                  (* getState: client_state.go:379 *)
+| OGet (s : store) (k : bytes)                   (* getState: client_state.go:379 *)
+| OFailNext (s : store).                         (* the next WriteState call that reaches
+                                                    store s returns an error *)
 
 Inductive out :=
 | TStore (s : store) (evs : list csevent)        (* WriteState call on that store *)
 | THdr (code : Z)                                (* underlying WriteHeader *)
 | TBody (b : bytes)                              (* underlying Write *)
-| TGet (s : store) (k : bytes) (v : option bytes).
+| TGet (s : store) (k : bytes) (v : option bytes)
+| TErr                                           (* a Write returned the flush error; no body written *)
+| TPanic.                                        (* a WriteHeader panicked with the flush error;
+                                                    no header written *)
 
-Record csrw := { ps : list csevent; pc : list csevent; written : bool }.
-Definition csrw_init := {| ps := []; pc := []; written := false |}.
+(* [fail_s]/[fail_c]: the next WriteState call on the session / cookie store fails *)
+Record csrw := { ps : list csevent; pc : list csevent; written : bool;
+                 fail_s : bool; fail_c : bool }.
+Definition csrw_init :=
+  {| ps := []; pc := []; written := false; fail_s := false; fail_c := false |}.
 
-(* putClientState: client_state.go:251 *)
+(* putClientState (client_state.go:251) when neither store fails *)
 Definition flush (ls lc : list csevent) : list out :=
   match ls, lc with
   | [], [] => []
   | _, _ => (match ls with [] => [] | _ => [TStore Sess ls] end) ++
             (match lc with [] => [] | _ => [TStore Cook lc] end)
   end.
+
+(* One WriteState call. A store with no pending event is not called (and its failure
+   flag stays); a call consumes the flag and returns it as the call's error. *)
+Definition call_sess (s : csrw) : csrw * list out * bool :=
+  match ps s with
+  | [] => (s, [], false)
+  | l => ({| ps := ps s; pc := pc s; written := written s; fail_s := false; fail_c := fail_c s |},
+          [TStore Sess l], fail_s s)
+  end.
+Definition call_cook (s : csrw) : csrw * list out * bool :=
+  match pc s with
+  | [] => (s, [], false)
+  | l => ({| ps := ps s; pc := pc s; written := written s; fail_s := fail_s s; fail_c := false |},
+          [TStore Cook l], fail_c s)
+  end.
+
+(* putClientState with the stores' error path (client_state.go:251): the latch is set
+   first; the session store is called first; an error returns at once, so after a
+   session error the cookie store is not called. The third component is "err != nil".
+   (The early return when both lists are empty is the case where both calls are skipped.) *)
+Definition put_cs (s : csrw) : csrw * list out * bool :=
+  let s0 := {| ps := ps s; pc := pc s; written := true;
+               fail_s := fail_s s; fail_c := fail_c s |} in
+  let '(s1, t1, e1) := call_sess s0 in
+  if e1 then (s1, t1, true)
+  else let '(s2, t2, e2) := call_cook s1 in (s2, t1 ++ t2, e2).
 
 Section WithState.
 Variables sess0 cook0 : amap.   (* state read by LoadClientState at request start *)
@@ -45,15 +81,23 @@ Definition getst (s : store) (k : bytes) : option bytes :=
 
 Definition cs_step (s : csrw) (o : op) : csrw * list out :=
   match o with
-  | OEv Sess e _ => ({| ps := ps s ++ [e]; pc := pc s; written := written s |}, [])
-  | OEv Cook e _ => ({| ps := ps s; pc := pc s ++ [e]; written := written s |}, [])
+  | OEv Sess e _ => ({| ps := ps s ++ [e]; pc := pc s; written := written s;
+                        fail_s := fail_s s; fail_c := fail_c s |}, [])
+  | OEv Cook e _ => ({| ps := ps s; pc := pc s ++ [e]; written := written s;
+                        fail_s := fail_s s; fail_c := fail_c s |}, [])
   | OWriteHeader c _ =>
+      (* a flush error panics before the underlying WriteHeader (client_state.go:206) *)
       if written s then (s, [THdr c])
-      else ({| ps := ps s; pc := pc s; written := true |}, flush (ps s) (pc s) ++ [THdr c])
+      else let '(s', t, err) := put_cs s in (s', t ++ [if err then TPanic else THdr c])
   | OWrite b _ =>
+      (* a flush error is returned without writing the body (client_state.go:232) *)
       if written s then (s, [TBody b])
-      else ({| ps := ps s; pc := pc s; written := true |}, flush (ps s) (pc s) ++ [TBody b])
+      else let '(s', t, err) := put_cs s in (s', t ++ [if err then TErr else TBody b])
   | OGet st k => (s, [TGet st k (getst st k)])
+  | OFailNext Sess => ({| ps := ps s; pc := pc s; written := written s;
+                          fail_s := true; fail_c := fail_c s |}, [])
+  | OFailNext Cook => ({| ps := ps s; pc := pc s; written := written s;
+                          fail_s := fail_s s; fail_c := true |}, [])
   end.
 
 Fixpoint cs_run (s : csrw) (p : list op) : list out :=
@@ -89,6 +133,8 @@ Definition out_eqb (a b : out) : bool :=
   | THdr c, THdr c' => Z.eqb c c'
   | TBody x, TBody y => beqb x y
   | TGet s k v, TGet s' k' v' => store_eqb s s' && beqb k k' && obytes_eqb v v'
+  | TErr, TErr => true
+  | TPanic, TPanic => true
   | _, _ => false
   end.
 Definition trace_eqb := list_eqb out_eqb.
